@@ -53,6 +53,11 @@ Expected(e) ==
   CASE e.fn = "add"      -> V6Add(e.a, e.b)
     [] e.fn = "sub"      -> V6Sub(e.a, e.b)
     [] e.fn = "neg"      -> V6Neg(e.a)
+    \* objects holding N values (flattened N x 6): element-wise, value k of the result from value k of the operands -
+    \* N = 6 included (a 6 x 6 block of values must not be read as a 6 x N matrix of columns)
+    [] e.fn = "addn"     -> [i \in 1..Len(e.a) |-> e.a[i] + e.b[i]]
+    [] e.fn = "subn"     -> [i \in 1..Len(e.a) |-> e.a[i] - e.b[i]]
+    [] e.fn = "negn"     -> [i \in 1..Len(e.a) |-> -e.a[i]]
     [] e.fn = "crm"      -> CrossMotion(e.a, e.b)
     [] e.fn = "crf"      -> CrossForce(e.a, e.b)
     \* v x (K v + d) = v x d  (bilinear, v x v = 0): operands that are NEARLY equal - the harness passes K v + d with a
